@@ -69,7 +69,8 @@ def build(X):
 
     # ---- append: Single / Single arm
     lc = X.type_item(LINEAGE, "enum", "LineageColumn").drop_attrs()
-    ap = X.arm_body(TRANSFORMS, "append", "name: name_b", name="append_single_arm")
+    # (the arm is found through the binding of the TOP column's name: the bottom's need not be bound at all)
+    ap = X.arm_body(TRANSFORMS, "append", "name: name_t", name="append_single_arm")
     binds_b = "target_id_b" in X.fn(TRANSFORMS, "append").text
     ap.text = ("pub fn append_single_arm(name_t: Option<Ident>, target_id: usize, target_name: Option<String>, name_b: Option<Ident>, target_id_b: usize, target_name_b: Option<String>)\n"
                "    -> (r: LineageColumn)\n"
@@ -96,5 +97,36 @@ def sweep():
 
 
 def rerun(doc):
+    if doc.get("replay_kind") == "ap_rows":
+        return _ap_try(doc["input"], [tuple(r) for r in doc["expected"]])
     import rqcheck
     return rqcheck.rerun(doc)
+
+
+# ----------------------------------------------------------------------------- replay for the append arm (AP1 / AP2): names of the columns of a union
+AP_SETUP = "create table t(a integer, b integer); insert into t values (1, 10), (2, 20); create table u(a integer, b integer); insert into u values (3, 30), (4, 51);"
+AP_CASES = [
+    # an unnamed top column takes the bottom's name
+    ("from t\nselect {a + 1, b}\nappend (from u | select {x = a, b})\nfilter x > 2\nselect {b, x}\nsort b\n", [(20, 3), (30, 3), (51, 4)]),
+    # a named top column keeps its own
+    ("from t\nselect {y = a + 1, b}\nappend (from u | select {x = a, b})\nfilter y > 2\nselect {b, y}\nsort b\n", [(20, 3), (30, 3), (51, 4)]),
+]
+
+
+def _ap_try(src, exp):
+    import replaylib
+    ok, sql = replaylib.compile_prql(src, "sql.sqlite")
+    if not ok:
+        return {"input": src, "expected": [list(r) for r in exp], "observed": sql[:300], "failing": True, "replay_kind": "ap_rows"}
+    ok2, rows = replaylib.sqlite_rows(AP_SETUP, sql)
+    rows = [tuple(r) for r in rows] if ok2 else rows
+    return {"input": src, "expected": [list(r) for r in exp], "observed": [list(r) for r in rows] if ok2 else "sqlite error: %s" % rows, "failing": (not ok2) or rows != exp, "replay_kind": "ap_rows"}
+
+
+def replay(failure):
+    if ".AP" in failure.get("obligation", ""):
+        for src, exp in AP_CASES:
+            r = _ap_try(src, exp)
+            if r["failing"]:
+                return r
+    return {"failing": False}
